@@ -96,6 +96,16 @@ Theorem c10_saves_are_serialised_in_source :
   Generated.rdb_save_serialised = true /\ Generated.rdb_write_snapshot_callers = [bs "save"].
 Proof. exact gen_saves_serialised. Qed.
 
+(** The one-instant read that [snapshot_key] (below) models is what the code does - read off
+    engine.rs and rdb.rs on every run: write_snapshot reads each key by ONE storage call,
+    get_with_ttl, and that call copies the members of a sorted set (the only value shared with the
+    command thread) while it holds the shard lock.  Before ec066f0 the shared set was handed out
+    and the save read its members later than its TTL: 68 of 150000 snapshots taken beside a client
+    that changed members and TTL held members beside a TTL the key never had with them. *)
+Theorem c10_snapshot_read_is_one_instant_in_source :
+  Generated.engine_get_with_ttl_copies_zset = true /\ Generated.rdb_snapshot_reads_per_key = 1.
+Proof. exact gen_snapshot_read_is_one_instant. Qed.
+
 (** ---- (2) one key under a save that runs beside the command thread ----
     [snapshot_key now s0 before after]: what write_snapshot writes for a key that is in state [s0]
     when the save starts, on which the client commands [before] run before the save thread reads
